@@ -917,12 +917,12 @@ def run(ctx: Ctx) -> None:
             for kd in kinds_:
                 must.append(ctx.rng.choice([t for t in b if t[0].startswith(kd)]))
         rest = [t for t in tpl if t not in must]
-        tpl = must + ctx.rng.sample(rest, 12)
+        tpl = must + ctx.rng.sample(rest, 8)
     run_batch(ctx, [t[3] for t in tpl], 'templates', [f'{t[0]}:{t[1]}:{t[2]}' for t in tpl])
     if ctx.deep and not cap:
         run_batch(ctx, [pad(ctx.rng, t[3]) for t in tpl], 'templates-padded', [f'{t[0]}:{t[1]}:{t[2]}' for t in tpl])
     ctx.extra['template_cells'] = sorted({f'{t[0]}:{t[1]}:{t[2]}' for t in tpl})
-    n = ctx.scale(40, 1500)
+    n = ctx.scale(30, 1500)
     if cap and ctx.deep:
         n = min(n, cap)
     run_batch(ctx, [rand_history(ctx.rng) for _ in range(n)], 'random')
